@@ -584,6 +584,16 @@ func calculateHashes(numLeaves uint64, delHashes []Hash, proof Proof) (hashAndPo
 			nextProvesIdx++
 		}
 
+		// A target can't be an ancestor of another target. The calculated
+		// ancestor and the target would otherwise be at the same position
+		// and an odd position would be taken as its own sibling.
+		if (toProveIdx < toProve.Len() && toProve.positions[toProveIdx] == provePos) ||
+			(nextProvesIdx < nextProves.Len() && nextProves.positions[nextProvesIdx] == provePos) {
+
+			return hashAndPos{}, nil, fmt.Errorf("invalid proof. Position %d "+
+				"is both a target and an ancestor of a target", provePos)
+		}
+
 		// Keep incrementing the row if the current position is greater
 		// than the max position on this row.
 		//
